@@ -20,6 +20,10 @@ func NewJavaIdentifierListener() *JavaIdentifierListener {
 	nodes = nil
 	currentNode = core_domain.NewDataStruct()
 	currentMethod = core_domain.NewJMethod()
+	// one listener per file: nothing of the previous file may be seen by this one
+	imports = nil
+	hasEnterClass = false
+	isOverrideMethod = false
 	return &JavaIdentifierListener{}
 }
 
